@@ -137,7 +137,10 @@ double RandomTools::qNorm(double prob)
 
 double RandomTools::qNorm(double prob, double mu, double sigma)
 {
-  return RandomTools::qNorm(prob) * sigma + mu;
+  double z = RandomTools::qNorm(prob);
+  if (z == -9999)
+    return -9999; // documented error signal: must not be rescaled into a plausible quantile
+  return z * sigma + mu;
 }
 
 double RandomTools::incompleteGamma (double x, double alpha, double ln_gamma_alpha)
